@@ -324,8 +324,7 @@ ARMS += [
          clause="x/z or zero divisor -> all x; unsigned: xe mod ye; signed: remainder with the sign of the dividend, modulo 2^w (11.4.2)"),
 ]
 
-BITS = "broadcast use lemma_band_bit, lemma_bor_bit, lemma_bxor_bit, lemma_low_bit, lemma_bit_high, lemma_mod_bit, lemma_shl_bit, lemma_shr_bit;"
-BITWISE_START = ("        " + BITS + "\n        proof { let w = width as nat; lemma_low_lt(w); lemma_ext_bound(*x, w, signed); lemma_ext_bound(*y, w, signed); }")
+BITWISE_START = ("        broadcast use lemma_band_bit, lemma_bor_bit, lemma_bxor_bit, lemma_low_bit, lemma_bit_high;\n        proof { let w = width as nat; lemma_low_lt(w); lemma_ext_bound(*x, w, signed); lemma_ext_bound(*y, w, signed); }")
 BITWISE_GHOST = [("                        Value::BigUint(ret)\n",
                   "                        proof { lemma_bits_bound(bv(*ret.mask_xz), width as nat); lemma_bits_bound(bv(*ret.payload), width as nat); }\n", 1)]
 
@@ -397,7 +396,6 @@ ARMS += [
          clause="3-valued OR of the operands' truth values (11.4.7)"),
 ]
 
-BITS0 = BITS[:-1] + ", lemma_bit0;"
 SHIFT_REQ = "    requires wf(*x), wf(*y), 64 < width <= 0xffff_ffff, vw(*x) <= width, vw(*y) >= 1,\n"
 SHIFT_START = ("        let ghost vp_s = vp(*y);\n        proof { let w = width as nat; lemma_low_lt(w); lemma_ext_bound(*x, w, signed); lemma_pow2_small();\n"
                "            lemma_msb_test(%s, (w - 1) as nat); lemma_msb_test(%s, (w - 1) as nat); }" % (XE, XM))
@@ -430,7 +428,7 @@ ARMS += [
 ]
 
 UN_REQ = "    requires wf(*x), 64 < width <= 0xffff_ffff, vw(*x) <= width,\n"
-UN_START = "        " + BITS0 + "\n        proof { let w = width as nat; lemma_low_lt(w); lemma_ext_bound(*x, w, signed); lemma_ext_nonzero(vm(*x), vw(*x), w, signed && vs(*x)); lemma_neg(%s, w); }" % XE
+UN_START = "        broadcast use lemma_band_bit, lemma_bxor_bit, lemma_low_bit, lemma_bit_high;\n        proof { let w = width as nat; lemma_low_lt(w); lemma_ext_bound(*x, w, signed); lemma_ext_nonzero(vm(*x), vw(*x), w, signed && vs(*x)); lemma_neg(%s, w); }" % XE
 P, M, W = "vp(*x)", "vm(*x)", "vw(*x)"
 RED_REQ = "    requires wf(*x), *x is BigUint, 1 <= width <= 0xffff_ffff,\n"
 RED_START = "        proof { lemma_low_lt(%s); lemma_pow2_small(); lemma_pow2_le(1, width as nat); lemma_known0_mask(%s, %s, %s); lemma_truth_mask(%s, %s, %s); }" % (W, P, M, W, P, M, W)
@@ -462,6 +460,21 @@ ARMS += [
     red("arm_red_xnor", "Op::BitXnor", "b4_not(%s)" % RXOR, "negated parity"),
 ]
 # @@MORE_ARMS@@
+
+
+HELPER_CLAUSES = {
+    "representation invariant": "wf(v): U64 form: width 0 (all-bit literal, unsigned, payload/mask <= 1) or 1 <= width <= 64 with payload, mask_xz < 2^width; "
+                                "BigUint form: width > 64 and bv(payload), bv(mask_xz) < 2^width. Every contract requires wf of the operands and ensures wf of the result.",
+    "Value::expand": "for ALL widths (both representations): unchanged if already at least `width` wide (and sized); otherwise width' = width, payload/mask = ext_v(.., sign-extend iff use_sign && signed) "
+                     "(zero / sign / x-z extension, all-bit literal fills every position), signed' = use_sign && signed, BigUint form iff width > 64; lemma_ext_bits: this is opeval's ext_bit position by position",
+    "ValueBigUint::gen_mask": "denotes 2^width - 1 (loop over base-2^32 digits proved with the from_slice contract)",
+    "ValueBigUint::to_bigint": "None iff any x/z; else the two's complement value sval(payload, width)",
+    "ValueBigUint::new_bigint": "requires |v| < 2^width; payload = v mod 2^width (Euclidean), mask 0",
+    "ValueBigUint::{new_biguint,new_x,is_xz,payload,mask_xz,to_usize}, ValueU64::{new,new_x,gen_mask,is_xz,new_bit_*,to_usize}, Value::{width,signed,is_xz,to_shift_amount}, b0, b1, resize":
+        "field-level meaning (new_x: payload 0, mask 2^width - 1; gen_mask(u64) = 2^min(width,64) - 1; to_shift_amount: None iff x/z, else the value saturated at usize::MAX; resize == expand for operands not wider than the context)",
+    "agreement lemmas": "lemma_agree_bit / lemma_agree_bitops / lemma_agree_arith: a u64 word and the natural number it denotes have the same bits, nat-level and/or/xor are the machine operations, "
+                        "wrapping add/sub/mul are the operations modulo 2^64 - so the contracts here, read at operands that fit 64 bits, are the functions opeval's reference computes on words",
+}
 
 
 def dev_build(ctx, res, only=None):
@@ -588,6 +601,13 @@ def build(ctx, res):
         add(f, a["name"])
         expect.append(a["name"])
         res.clauses[a["name"]] = "%s (%s): %s" % (a["pat"], a["fn"], a["clause"])
+    res.clauses.update(HELPER_CLAUSES)
+    res.samples.append({"obligation": "verus:bigeval:arm_div", "contract": [a for a in ARMS if a["name"] == "arm_div"][0]["spec"]})
+    res.samples.append({"obligation": "verus:bigeval:Value::expand", "contract": EXPAND_SPEC})
+    res.notes.append("bigeval: arms are cut out of Op::eval_value_binary / eval_value_unary by rule EA (units/bigeval/armx.py::match_arm); the <=64-bit sub-arm of every arm is "
+                     "proved unreachable (rule EB) under the contract's precondition; operator applications on big integers are rewritten to trait-method calls (rule ED) because "
+                     "this Verus version fails internally on overloaded operators with reference operands; Op::Pow and Op::As are not under contract; "
+                     "ghost blocks are anchored on statement text (re-indenting those statements makes the run undecided, not a violation)")
     text = vf.finish()
     lemmas = re.findall(r"^(?:pub )?(?:broadcast )?proof fn (lemma_\w+)", text, re.M)
     return [VerusJob("bigeval", text, vf, expect + lemmas, canaries=CANARIES, items=items, trusted=TRUSTED, rlimit=40, extra=["--num-threads", "2"])]
